@@ -59,6 +59,8 @@ class ReferenceValueMap(ABC):
         """
         if not isinstance(key, (int, np.integer)) or key < 0:
             raise KeyError("Key must be an positive integer")
+        if key > np.iinfo(np.uint32).max:
+            raise KeyError("Key must fit in an unsigned 32-bit integer")
         if not isinstance(value, str):
             raise TypeError("Value must be a string")
 
